@@ -126,6 +126,10 @@ def corruptions(seed, donors, lay, every_boundary):
         ("namelist_followed_by_junk", False, True, b"module nl_junk\ninteger :: aaaaaaaaaaaaaaaaaaaaaaaaaaaaaaaaaaaaaaaaaaaaaaaaaaaa, b\nnamelist /grp/ aaaaaaaaaaaaaaaaaaaaaaaaaaaaaaaaaaaaaaaaaaaaaaaaaaaa, b (\nend module nl_junk\n"),
         ("namelist_followed_by_junk", False, True, b"module nl_junk2\ninteger :: long_variable_name_number_one, long_variable_name_number_two, c\nnamelist /g1/ long_variable_name_number_one, long_variable_name_number_two /g2/ c\nend module nl_junk2\n"),
         ("namelist_followed_by_junk", False, True, b"namelist /g/ xxxxxxxxxxxxxxxxxxxxxxxxxxxxxxxxxxxxxxxxxxxxxxxx yyyyyyyyyyyyyyyyyyyyyyyyyyyyyyy = 3 )) &\n"),
+        # INCLUDE chains that come back to a file already being read
+        ("cyclic_include", False, True, b"module inc_cycle_m\ninteger :: before_inc\ninclude 'cyc_a.inc'\nend module inc_cycle_m\n"),
+        ("cyclic_include", False, True, b"include 'cyc_self.inc'\n"),
+        ("cyclic_include", False, True, b"subroutine inc_first()\ninclude 'cyc_first.inc'\nend subroutine inc_first\n"),
         ("arbitrary_text", False, True, b"Lorem ipsum dolor sit amet,\nconsectetur (adipiscing elit; sed & do\n eiusmod tempor <<< >>> incididunt\n"),
         ("arbitrary_text", False, True, "\n".join("".join(rng.choice("abc xyz()&!'\"=,:;%<>0123") for _ in range(rng.randint(1, 60))) for _ in range(rng.randint(1, 30))).encode()),
         ("ampersand_only", False, True, b"&\n"),
@@ -204,7 +208,7 @@ def observe_child(arg):
     registered = []
     try:
         project, cap = observe.parse_and_correlate([root], cap=cap)
-        registered = sorted(f.name for f in project.files)
+        registered = sorted(os.path.relpath(f.path, root) for f in project.files)
         table = observe.tree(project)
         ids = idents(project)
     except BaseException as e:  # noqa: BLE001
@@ -216,9 +220,19 @@ def observe_child(arg):
     return {"table": table, "idents": ids, "error": err, "registered": registered, "named": named, "diag_tail": text[-1500:]}
 
 
+# files that the cyclic-INCLUDE corruptions pull in (not source files themselves: nothing reads them otherwise)
+COMPANIONS = {
+    "cyc_a.inc": "integer :: from_a\ninclude 'cyc_b.inc'\n",
+    "cyc_b.inc": "integer :: from_b\ninclude 'cyc_a.inc'\n",
+    "cyc_self.inc": "integer :: again\ninclude 'cyc_self.inc'\n",
+    "cyc_first.inc": "include 'cyc_first.inc'\ninteger :: never\n",
+}
+
+
 def write_tree(root, files):
     os.makedirs(root, exist_ok=True)
     for name, data in files.items():
+        os.makedirs(os.path.dirname(os.path.join(root, name)), exist_ok=True)
         with open(os.path.join(root, name), "wb") as f:
             f.write(data if isinstance(data, bytes) else data.encode())
 
@@ -243,6 +257,7 @@ def variant(arg):
     root = core.mktemp("vf_c20v_")
     try:
         write_tree(root, valid)
+        write_tree(root, COMPANIONS)
         write_tree(root, {b[0]: b[4] for b in bad})
         bad_names = [b[0] for b in bad]
         st, r = core.run_alone(observe_child, (root, bad_names), timeout=400)
@@ -281,7 +296,7 @@ def variant(arg):
             if r["idents"] != ref["idents"]:
                 di = [(a, b) for a, b in zip(ref["idents"], r["idents"]) if a != b][:6]
                 viol.append({"kf": {"kind": "page_names_differ_although_file_skipped", "classes": classes}, "w": {**w0, "differences": di, "n_ref": len(ref["idents"]), "n_var": len(r["idents"])}})
-        elif all(b[3] for b in accepted):
+        elif all(b[3] for b in accepted) and not any("/" in b[0] for b in accepted):  # (tables are keyed by base name)
             keep = lambda t: {k: v for k, v in t.items() if k.split("/")[0][5:] in [f.lower() for f in ref["registered"]]}  # noqa: E731
             d = observe.diff_tables(keep(ref["table"]), keep(r["table"]))
             if d:
@@ -315,6 +330,7 @@ def cli_case(arg):
         for tag, extra in (("base", {}), ("var", {b[0]: b[4] for b in bad})):
             proj = os.path.join(root, tag, "proj")
             write_tree(os.path.join(proj, "src"), valid)
+            write_tree(os.path.join(proj, "src"), COMPANIONS)
             write_tree(os.path.join(proj, "src"), extra)
             site.write_project_file(proj, {"project": "Robust", "src_dir": "./src", "output_dir": "./doc", "preprocess": False, "search": True, "graph": False,
                                            "display": ["public", "private", "protected"], "proc_internals": True, "incl_src": True, "parallel": 0})
@@ -334,7 +350,7 @@ def cli_case(arg):
         if rv["rc"] != 0:
             return {"viol": [{"kf": {"kind": "run_aborted", "phase": phase_of(text), "layer": "cli"}, "w": {**w0, "classes": classes, "rc": rv["rc"], "tail": text[-1500:]}}], "outcome": "aborted"}
         viol = []
-        documented = [b for b in bad if os.path.join("sourcefile", b[0] + ".html") in tv]
+        documented = [b for b in bad if os.path.join("sourcefile", os.path.basename(b[0]) + ".html") in tv and "/" not in b[0]] + [b for b in bad if "/" in b[0] and set(tv) - set(tb)]
         skipped = [b for b in bad if b not in documented]
         for b in skipped:
             if b[0] not in text:
@@ -356,7 +372,8 @@ def main():
         rule="case = (generated valid project of 3-5 files, 1-3 additional files from {truncation at a statement boundary (every boundary of every "
         "donor file at the thorough tier), inside a continuation, mid-line; complete unit + truncated/garbage; dropped/extra/leading END; doubled or "
         "file-level CONTAINS; truncated right after an opening; undecodable / NUL bytes; unbalanced quote; arbitrary text; & only; empty; never "
-        "closed or never opened units; UTF-16 / Latin-1 files}, file name chosen to sort before / between / after the valid files, names shared "
+        "closed or never opened units; UTF-16 / Latin-1 files; INCLUDE chains that return to a file being read}, file name chosen to sort before / between / after the valid files, "
+        "or placed in a sub-directory under the base name of a valid file, names shared "
         "with or foreign to the project). Non-trivial: cases in which FORD skipped at least one additional file.",
         assumptions=["FORD's own verdict (file registered or not) decides whether a file counts as rejected; only undecodable files must be rejected",
                      "hang verdict = CPU limit of %d s in the child (baseline parse < 2 s); wall-clock time-outs are inconclusive" % CPU_LIMIT,
@@ -381,15 +398,20 @@ def main():
         cs = corruptions(s, donors, lay, every_boundary=thorough)
         rng = random.Random(s * 3 + 1)
         prefixes = ["a", "c", "g", "j", "m", "z"]
+        vnames = sorted(valid)
         for ci, (cls, must, frn, data) in enumerate(cs):
             pos = prefixes[ci % len(prefixes)]
             tasks.append((s, r, [(f"{pos}_bad{ci}.f90", cls, must, frn, data)]))
+            if ci % 7 == 3:
+                # in a sub-directory, under the base name of one of the valid files, read after (zz_) or before (aa_) it
+                tasks.append((s, r, [(f"{rng.choice(['zz_legacy', 'zz_legacy', 'aa_old'])}/{rng.choice(vnames)}", cls, must, frn, data)]))
         for _ in range(len(cs) // 4):  # several broken files at once
             pick = rng.sample(range(len(cs)), rng.randint(2, 3))
             tasks.append((s, r, [(f"{rng.choice(prefixes)}_bad{ci}.f90", cs[ci][0], cs[ci][1], cs[ci][2], cs[ci][3]) for ci in pick]))
         ncli = 40 if thorough else 10
         for ci in rng.sample(range(len(cs)), min(ncli, len(cs))):
-            cli_tasks.append((s, [(f"{rng.choice(prefixes)}_bad{ci}.f90", cs[ci][0], cs[ci][1], cs[ci][2], cs[ci][3])]))
+            nm = f"{rng.choice(prefixes)}_bad{ci}.f90" if rng.random() < 0.75 else f"zz_legacy/{rng.choice(vnames)}"
+            cli_tasks.append((s, [(nm, cs[ci][0], cs[ci][1], cs[ci][2], cs[ci][3])]))
     results = core.fork_map(variant, tasks, per_case_fork=False, case_timeout=500, total_timeout=3000)
     for t, (st, r) in zip(tasks, results):
         if st != "ok":
